@@ -9,9 +9,10 @@ import sys
 
 ID = sys.argv[1]
 checks = sys.argv[2:] or [ID]
-for n in (1, 2, 3):
-    patch = "/tmp/seed/%s_patch_%d.diff" % (ID, n)
-    demo = "/tmp/seed/%s_demo_%d.py" % (ID, n)
+SD = os.environ.get("SEED_DIR", "/tmp/seed")
+for n in [int(x) for x in os.environ.get("SEED_NUMS", "1,2,3").split(",")]:
+    patch = SD + "/%s_patch_%d.diff" % (ID, n)
+    demo = SD + "/%s_demo_%d.py" % (ID, n)
     if not os.path.exists(patch):
         print("missing", patch)
         continue
@@ -37,7 +38,7 @@ for n in (1, 2, 3):
     shutil.copy(patch, d + "/patch.diff")
     shutil.copy(demo, d + "/demo.py")
     try:
-        m = json.load(open("/tmp/seed/%s_meta_%d.json" % (ID, n)))
+        m = json.load(open(SD + "/%s_meta_%d.json" % (ID, n)))
     except Exception:
         m = {}
     meta = {"property": ID, "summary": m.get("summary"), "needs": m.get("needs"), "files_changed": m.get("files_changed"),
